@@ -5,8 +5,17 @@
    + a replay stream: final queries answered by the source registry r0 and by a second, empty
    registry into which allRegistrations()/allSubscriptions() of r0 were replayed.
 
-   check_model : Model/RegSys.run (with rebuild()/replay done in the OBSERVED enumeration order,
-                 Model/Bookkeeping.replay_into) gives exactly the observed answers.
+   check_model : two models in lockstep give exactly the observations:
+                 (1) the registry system on flat storage (Model/RegSys.run): all public answers;
+                 (2) one nested-dictionary storage per registry (Model/Trie.v): after EVERY storage
+                     mutation its _adapters / _subscribers trees equal the implementation's private
+                     layout (dict order included) and its _provided counts equal the implementation's;
+                     before every rebuild() and before the replay its _all_entries enumeration equals the
+                     implementation's raw listing IN ORDER; every query on a base-less registry is also
+                     answered by the nested walkers and must give the same answer.
+                 rebuild() and the replay of the flat model use the NESTED model's enumeration order
+                 (Model/Bookkeeping.replay_into), so lookups after rebuild() - ambiguous ones included -
+                 are predicted, not observed.
    check_spec  : the answers of registered / subscribed / allRegistrations / allSubscriptions are
                  judged against the ledger of Spec/Bookkeeping.v, replayed here per registry without
                  any of Model/Adapter's functions; lookups before/after rebuild() and on r0 / the
